@@ -762,6 +762,11 @@ func (it *Iterator) Seek(key []byte) {
 	if len(key) == 0 {
 		key = it.opt.Prefix
 	}
+	if !it.opt.Reverse && bytes.Compare(key, it.opt.Prefix) < 0 {
+		// Every key with the prefix is >= the prefix. Seeking below it would park the
+		// cursor on a key outside the prefix, which ends the iteration at once.
+		key = it.opt.Prefix
+	}
 	if len(key) == 0 {
 		it.iitr.Rewind()
 		it.prefetch()
